@@ -7,6 +7,11 @@ import concurrent.futures, json, os, shutil, subprocess, sys, tempfile
 VERIF = os.path.dirname(os.path.dirname(os.path.abspath(__file__)))
 kind = sys.argv[1]
 sel = sys.argv[2:]
+# the checks are run from a snapshot of the rule set taken now, so rules can be edited while a long regression is running
+SNAP = tempfile.mkdtemp(prefix="verif-snap-", dir=os.environ.get("VERIF_SCRATCH", "/tmp"))
+CHK = os.path.join(SNAP, "verif")
+shutil.copytree(VERIF, CHK, symlinks=True, ignore=shutil.ignore_patterns(".git", "seeded", "neutral", "evidence", "canaries", "driver", "__pycache__"))
+os.symlink(os.path.join(VERIF, "driver"), os.path.join(CHK, "driver"))
 man = json.load(open(os.path.join(VERIF, "MANIFEST.json")))
 props = [c["property_id"] for c in man["checks"]]
 sd = os.path.join(VERIF, kind)
@@ -26,7 +31,7 @@ def one(sid):
         fired = {}
 
         def run(pr):
-            q = subprocess.run([os.path.join(VERIF, "bin", "check"), pr, "--tier", "quick"], cwd=VERIF, env=env, capture_output=True, text=True)
+            q = subprocess.run([os.path.join(CHK, "bin", "check"), pr, "--tier", "quick"], cwd=CHK, env=env, capture_output=True, text=True)
             return pr, q
         with concurrent.futures.ThreadPoolExecutor(max_workers=4) as inner:
             for pr, q in inner.map(run, props):
@@ -55,4 +60,5 @@ with concurrent.futures.ThreadPoolExecutor(max_workers=int(os.environ.get("VERIF
             bad += 1 if fired else 0
 if os.environ.get("VERIF_WRITE_RESULTS", "1") == "1":
     json.dump(results, open(res_path, "w"), indent=1, sort_keys=True)
+shutil.rmtree(SNAP, ignore_errors=True)
 print("%s: %d patches, %d %s" % (kind, len(ids), bad, "missed" if kind == "seeded" else "false alarms"))
